@@ -2,6 +2,15 @@
 
 package websocket
 
+import (
+	"bufio"
+	"bytes"
+	"encoding/binary"
+	"io"
+	"net/http"
+	"strings"
+)
+
 func vfH_smoke() {
 	x := vfByte()
 	y := vfByte()
@@ -26,4 +35,31 @@ func vfH_smoke() {
 func vfH_smoke_bad() {
 	x := vfU16()
 	vfAssert(x != 12345, "neq")
+}
+
+// vfH_smoke_stdlib: standard-library helpers a refactoring of the library may start using.
+func vfH_smoke_stdlib() {
+	s := vfString(3)
+	var sb strings.Builder
+	sb.WriteString("ab")
+	sb.WriteByte(s[0])
+	sb.WriteString(s[1:])
+	out := sb.String()
+	vfAssert(len(out) == 5 && out[2] == s[0] && out[4] == s[2], "builder")
+	t := strings.TrimLeft(" \t"+s, " \t")
+	vfAssert(len(t) <= 3, "trimleft")
+	i := strings.IndexFunc("ab,"+s, func(r rune) bool { return r == ',' })
+	vfAssert(i == 2, "indexfunc")
+	b := binary.BigEndian.AppendUint16(nil, uint16(s[0])<<8|uint16(s[1]))
+	vfAssert(len(b) == 2 && b[0] == s[0] && b[1] == s[1], "appenduint16")
+	br := bufio.NewReaderSize(bytes.NewReader([]byte("hello"+s)), 16)
+	p, err := br.Peek(6)
+	vfAssert(err == nil && p[5] == s[0], "peek")
+	n, _ := br.Discard(6)
+	vfAssert(n == 6, "discard")
+	rest, _ := io.ReadAll(io.LimitReader(br, 1))
+	vfAssert(len(rest) == 1 && rest[0] == s[1], "readall-limit")
+	var rc io.ReadCloser = http.NoBody
+	vfAssert(rc != nil, "nobody")
+	vfReach("smoke-stdlib-end")
 }
